@@ -114,7 +114,7 @@ prop(
 
 prop(
     "C02",
-    contract_modules=["contracts.c02", "contracts.c01r"],
+    contract_modules=["contracts.c02", "contracts.c01r", "contracts.c18t"],
     bcc="c02",
     level="other",
     claimed=False,
@@ -297,8 +297,9 @@ _TEXTS = {
             "left; chunk=0 and PDB delegation stated semantically); load_pdb(frame=i) time; md.load (one loader call per file with the caller's stride / "
             "atom_indices / topology, joined in order, caller's topology left unmodified); the load_<format> glue (frame=i: seek(i) then one frame); read_as_traj of the "
             "pure-Python file classes (delegates partial loading to read once, restricts the topology iff atom_indices, frame k of a reader without stored times is "
-            "file frame position+k*stride); skip_dcdstep skips exactly one frame of the DCD format for every flag combination. Bounded only: the Cython/C readers (xtc, trr, "
-            "dcd, dtr, binpos), the text parsers themselves."),
+            "file frame position+k*stride); read(n_frames, stride, atom_indices) of the text readers xyz / lammpstrj / mdcrd over the contract of their one-frame parser "
+            "(frames position+j*stride in order, count, rows of atom_indices, new position); skip_dcdstep skips exactly one frame of the DCD format for every flag "
+            "combination. Bounded only: the Cython/C readers (xtc, trr, dcd, dtr, binpos), the one-frame text parsers themselves."),
     "C04": (_T_PY, "Deductive: the real Topology/Chain/Residue/Atom/Bond code on a fixed shape (2 chains, 3 residues, 5 atoms, 4 typed bonds) with symbolic "
             "resSeq/serial: copy/__copy__/__deepcopy__, subset for all 31 subsets, join, in-place edits, ==/hash: abstract view equality, well-formedness, bond "
             "endpoints are own atoms, independence of the copy; the HDF5 topology setter/getter pair returns what its schema holds for every resSeq value. "
